@@ -22,28 +22,71 @@ def _bodies(cr, name):
     return A.with_closures(cr.fns, name)
 
 
+EFFECT = re.compile(r'RowLockManager::try_lock$|TransactionManager::(record_undo|set_phase|release_locks|remove)$|RelationalSlab::scan_all$')
+PFX = 'relational_engine::'
+
+
+def _effect_calls(cg, f, matcher, skip=()):
+    """calls in f that perform a matching operation themselves or through crate-local helpers"""
+    out = []
+    for c in A.calls(f):
+        if matcher(c.resolved):
+            out.append(c)
+        elif c.resolved.startswith(PFX) and c.resolved not in skip and c.resolved in cg.fns:
+            if lib.transitive_calls(cg, cg.fns[c.resolved], None, matcher, PFX, depth=2):
+                out.append(c)
+    return out
+
+
+def _is_mut(n):
+    return bool(SLAB_MUT.match(n) or IDX.match(n))
+
+
+def _active_edges(g, W, uses=None):
+    uses = uses or A.Uses(g)
+    e = set()
+    for c in A.calls_to(g, TM + 'TransactionManager::is_active'):
+        e |= A.call_outcome(g, c, uses).ok
+    return e | lib.wrapper_ok_edges(g, W, uses)
+
+
+def _lock_edges(g, W, uses=None):
+    """edges that imply the rows were locked: Ok of try_lock (or of a wrapper), with the nothing-to-lock bypass cut"""
+    uses = uses or A.Uses(g)
+    cd = None
+    e = set()
+    tl = A.calls_to(g, ('re', r'transaction::RowLockManager::try_lock$')) + [c for c in A.calls(g) if c.resolved in W]
+    for c in tl:
+        e |= A.call_outcome(g, c, uses).ok
+        cd = cd or A.control_deps(g)
+        for (a, s_) in cd.get(c.bb, ()):
+            for s2 in set(A.succs(g, a)):
+                if s2 != s_:
+                    e.add((a, s2))
+    return e if tl else set()
+
+
 def r09a(ctx, rep, cr):
     rep.rule('R09a', 'phase check first: in tx_insert / tx_update / tx_delete / tx_select / commit / rollback no slab or index mutator, '
-                     'lock call, undo record, phase change or lock release is reachable unless the true edge of '
-                     'TransactionManager::is_active(tx_id) was taken')
+                     'lock call, undo record, phase change or lock release (direct or through a helper) is reachable unless the true edge of '
+                     'TransactionManager::is_active(tx_id) was taken — in the function, or in a helper that returns Ok only through it')
+    cg = ctx.callgraph(['relational_engine'])
+    W = lib.guard_wrappers(cg, PFX, _active_edges)
+    rep.notes.append('R09a: phase-check wrappers = %s' % sorted(lib.short(x) for x in W))
     for name in ('tx_insert', 'tx_update', 'tx_delete', 'tx_select', 'commit', 'rollback'):
         f = rep.require_fn('R09a', cr, RE + name)
         if f is None:
             continue
-        uses = A.Uses(f)
-        ia = A.calls_to(f, TM + 'TransactionManager::is_active')
-        if not ia:
+        ok = _active_edges(f, W)
+        if not ok:
             rep.violation('R09a', f, 'no-phase-check', f.loc(), '%s does not test that the transaction is active' % name)
             continue
-        ok = set()
-        for c in ia:
-            ok |= A.call_outcome(f, c, uses).ok
         R = A.reachable(f, [0], cut_edges=ok)
-        eff = _mutators(f) + [c for c in A.calls(f) if re.search(r'RowLockManager::try_lock$|TransactionManager::(record_undo|set_phase|release_locks|remove)$|RelationalSlab::scan_all$', c.resolved)]
+        eff = _effect_calls(cg, f, lambda n: _is_mut(n) or bool(EFFECT.search(n)), skip=W)
         bad = [c for c in eff if c.bb in R]
-        if bad or not ok:
-            rep.violation('R09a', f, 'effect-before-phase-check', f.loc(bad[0].line if bad else f.line),
-                          '%s is reachable for a finished / unknown transaction (before is_active held)' % lib.short(bad[0].resolved if bad else 'effects'))
+        if bad:
+            rep.violation('R09a', f, 'effect-before-phase-check', f.loc(bad[0].line),
+                          '%s is reachable for a finished / unknown transaction (before is_active held)' % lib.short(bad[0].resolved))
         else:
             rep.holds('R09a', f, 'is_active first', '%d effects behind the check' % len(eff))
 
@@ -91,36 +134,31 @@ def r09b(ctx, rep, cr):
 
 
 def r09c(ctx, rep, cr):
-    rep.rule('R09c', 'lock all, then change: in tx_update / tx_delete no mutator is reachable unless the Ok edge of RowLockManager::try_lock '
-                     'was taken (the empty-match bypass is cut); sibling rule: every tx_* mutator locks the rows it changes — tx_insert '
-                     'must lock the row it creates')
+    rep.rule('R09c', 'lock all, then change: in tx_update / tx_delete no mutator (direct or through a helper) is reachable unless the Ok '
+                     'edge of RowLockManager::try_lock was taken — in the function or in a helper that returns Ok only through it (the '
+                     'nothing-to-lock bypass is cut); sibling rule: every tx_* mutator locks the rows it changes — tx_insert must lock the '
+                     'row it creates')
+    cg = ctx.callgraph(['relational_engine'])
+    W = lib.guard_wrappers(cg, PFX, _lock_edges)
+    rep.notes.append('R09c: lock wrappers = %s' % sorted(lib.short(x) for x in W))
     for name in ('tx_update', 'tx_delete'):
         f = rep.require_fn('R09c', cr, RE + name)
         if f is None:
             continue
-        uses, cd = A.Uses(f), A.control_deps(f)
-        tl = A.calls_to(f, ('re', r'transaction::RowLockManager::try_lock$'))
-        muts = _mutators(f) + A.calls_to(f, TM + 'TransactionManager::record_undo')
-        if not tl:
+        ok = _lock_edges(f, W)
+        if not ok:
             rep.violation('R09c', f, 'no-lock', f.loc(), '%s changes rows without taking row locks' % name)
             continue
-        ok = set()
-        bypass = set()
-        for c in tl:
-            ok |= A.call_outcome(f, c, uses).ok
-            for (a, s) in cd.get(c.bb, ()):
-                for s2 in set(A.succs(f, a)):
-                    if s2 != s:
-                        bypass.add((a, s2))
-        R = A.reachable(f, [0], cut_edges=ok | bypass)
+        muts = _effect_calls(cg, f, lambda n: _is_mut(n) or n == TM + 'TransactionManager::record_undo', skip=W)
+        R = A.reachable(f, [0], cut_edges=ok)
         bad = [c for c in muts if c.bb in R]
-        if bad or not ok:
-            rep.violation('R09c', f, 'change-before-lock', f.loc(bad[0].line if bad else tl[0].line), 'a row can be changed on a path that has not acquired its lock (or the lock conflict is not propagated)')
+        if bad:
+            rep.violation('R09c', f, 'change-before-lock', f.loc(bad[0].line), 'a row can be changed on a path that has not acquired its lock (or the lock conflict is not propagated)')
         else:
             rep.holds('R09c', f, 'lock→change', '')
     f = rep.require_fn('R09c', cr, RE + 'tx_insert')
     if f is not None:
-        tl = A.calls_to(f, ('re', r'transaction::RowLockManager::(try_lock|lock)\w*$'))
+        tl = _effect_calls(cg, f, lambda n: bool(re.search(r'transaction::RowLockManager::(try_lock|lock)\w*$', n)))
         if tl:
             rep.holds('R09c', f, 'insert locks its row', '')
         else:
@@ -130,9 +168,10 @@ def r09c(ctx, rep, cr):
 
 
 def r09d(ctx, rep, cr):
-    rep.rule('R09d', 'inverse coverage: for each UndoEntry variant, the arm of apply_undo_entry calls the inverse of every forward '
+    rep.rule('R09d', 'inverse coverage: for each UndoEntry variant, the arm of apply_undo_entry calls (itself or through helpers) the inverse of every forward '
                      'operation class performed, on a path that goes on to a success return, by the function that records that variant '
                      '(slab, hash index, ordered index)')
+    cg = ctx.callgraph(['relational_engine'])
     f = rep.require_fn('R09d', cr, RE + 'apply_undo_entry')
     adt = cr.adts.get(TM + 'UndoEntry')
     if f is None or adt is None:
@@ -148,7 +187,8 @@ def r09d(ctx, rep, cr):
         stop = {b for vv, b in tg.items() if b != tb}
         R = A.reachable(f, [tb], cut_blocks=stop)
         Ro = A.reachable(f, list(stop), cut_blocks={tb})
-        arm_ops[v] = {c.resolved.split('::')[-1] for c in muts if c.bb in R and c.bb not in Ro}
+        arm_blocks = {b for b in R if b not in Ro}
+        arm_ops[v] = {x.split('::')[-1] for x in lib.transitive_calls(cg, f, arm_blocks, _is_mut, PFX, depth=3)}
     # forward ops per recording function
     fwd = {}
     for g in cr.fns.values():
@@ -187,21 +227,26 @@ def r09d(ctx, rep, cr):
 
 
 def r09f(ctx, rep, cr):
-    rep.rule('R09f', 'replace order: where one function both removes an index entry and adds one for the same row (tx_update and the '
-                     'UpdatedRow undo arm), for each index kind the remove precedes the add on every path (index_add is idempotent and '
+    rep.rule('R09f', 'replace order: where one function (or one arm of a dispatch on UndoEntry) both removes an index entry and adds one for the '
+                     'same row (tx_update, the UpdatedRow undo arm or its helper), for each index kind the remove precedes the add on every path (index_add is idempotent and '
                      'index_remove unconditional, so add-then-remove deletes the only entry when old and new value are equal)')
     pairs = (('index_remove', 'index_add'), ('btree_index_remove', 'btree_index_add'))
     n = 0
-    targets = [(RE + 'tx_update', None)]
-    f = cr.fns.get(RE + 'apply_undo_entry')
     adt = cr.adts.get(TM + 'UndoEntry')
-    if f is not None and adt is not None:
-        ds = lib.enum_dispatches(f, TM + 'UndoEntry')
+    targets = []
+    for fname, g in sorted(cr.fns.items()):
+        if not fname.startswith(RE) or '{closure' in fname:
+            continue
+        if not any(A.calls_to(g, RE + r_) and A.calls_to(g, RE + a_) for r_, a_ in pairs):
+            continue
+        ds = lib.enum_dispatches(g, TM + 'UndoEntry') if adt is not None else []
         if ds:
             tg = lib.variant_targets(adt, ds[0][1])
-            tb = tg.get('UpdatedRow')
-            stop = {b for v, b in tg.items() if b != tb}
-            targets.append((RE + 'apply_undo_entry', (tb, stop)))
+            for v, tb in sorted(tg.items()):
+                stop = {b_ for vv, b_ in tg.items() if b_ != tb}
+                targets.append((fname, (tb, stop)))
+        else:
+            targets.append((fname, None))
     for name, arm in targets:
         f = rep.require_fn('R09f', cr, name)
         if f is None:
@@ -233,24 +278,22 @@ def r09f(ctx, rep, cr):
                               'remove then deletes the row\'s only index entry' % (add_n, rem_n))
             else:
                 rep.holds('R09f', f, '%s → %s' % (rem_n, add_n), '')
-    rep.floor('R09f', 'remove/add pairs', n, 3)
+    rep.floor('R09f', 'remove/add pairs', n, 2)
 
 
 def r09e(ctx, rep, cr):
     rep.rule('R09e', 'locks disappear: in commit and rollback, once the phase check passed, every path to any return passes '
                      'TransactionManager::release_locks and ::remove')
+    cg = ctx.callgraph(['relational_engine'])
+    W = lib.guard_wrappers(cg, PFX, _active_edges)
     for name in ('commit', 'rollback'):
         f = rep.require_fn('R09e', cr, RE + name)
         if f is None:
             continue
-        uses = A.Uses(f)
-        ia = A.calls_to(f, TM + 'TransactionManager::is_active')
-        ok = set()
-        for c in ia:
-            ok |= A.call_outcome(f, c, uses).ok
+        ok = _active_edges(f, W)
         starts = [t for (_, t) in ok]
         for callee in ('release_locks', 'remove'):
-            cs = A.calls_to(f, TM + 'TransactionManager::' + callee)
+            cs = _effect_calls(cg, f, lambda n, callee=callee: n == TM + 'TransactionManager::' + callee, skip=W)
             R = A.reachable(f, starts, cut_blocks={c.bb for c in cs})
             rets = [r for r in A.return_blocks(f) if r in R]
             if not cs or rets or not starts:
